@@ -284,3 +284,73 @@ Example runS_result :
   wins s = [(2, 3, [1; 3], [3; 0; 1]); (1, 0, [1; 0], [0; 1; 2])] /\
   direct s = [(2, 4, [3; 0; 1]); (1, 3, [0; 3; 1]); (1, 2, [0; 3; 1; 2]); (1, 1, [0; 1; 2]); (0, 0, V3)].
 Proof. vm_compute. repeat split; reflexivity. Qed.
+
+(* ---- run E: SECOND counterexample for the rules as coded (guards on, member filter on, NO id
+   re-use): the operator reads the "current member list" while a change is PENDING.
+   Members {0,1,2}.  Leader 0 (term 1) appends [CRem 2] (not replicated); the operator starts the
+   new node 3 with node 0's table {0,1}.  Node 1 wins term 2 (with node 2), overwrites the pending
+   removal, adds node 3 (committed by {1,3,0}) and then node 4 (committed by {1,2,4}).  Node 3 holds
+   its own [CAdd 3] but its table is {3,0,1}: node 2 is missing for ever.  Node 3 wins term 3 with
+   {3,0} - a majority of ITS set, disjoint from {1,2,4} - and commits its no-op at index 5. ---- *)
+Definition coded_noreuse : flags := mkF true false false false true.
+Definition x3 := mkE 3 2 (Cmd 0).
+Definition x4 := mkE 4 2 (CAdd 3).
+Definition x5 := mkE 5 2 (CAdd 4).
+Definition z5 := mkE 5 3 (Cmd 0).
+
+Definition runE : list action :=
+  [ Timeout 0; HandleRequestVote 1 1 0 1 0; HandleVote 0 1 1;
+    SendAppendEntries 0 1 0 1; HandleAppendEntries 1 1 0 1 0 [n2] 1; HandleAppendReply 0 1 1 true 2;
+    SendAppendEntries 0 2 0 1; HandleAppendEntries 2 1 0 1 0 [n2] 1;
+    AdvanceCommit 0 1;
+    ClientRequest 0 (CRem 2);
+    Join 3 0;
+    Timeout 1; HandleRequestVote 2 2 1 2 1; HandleVote 1 2 2;
+    SendAppendEntries 1 0 1 1; HandleAppendEntries 0 2 1 2 1 [x3] 1; HandleAppendReply 1 2 0 true 3;
+    AdvanceCommit 1 2;
+    ClientRequest 1 (CAdd 3);
+    SendAppendEntries 1 3 0 3; HandleAppendEntries 3 2 1 1 0 [n2; x3; x4] 3; HandleAppendReply 1 2 3 true 4;
+    SendAppendEntries 1 0 2 1; HandleAppendEntries 0 2 1 3 2 [x4] 3; HandleAppendReply 1 2 0 true 4;
+    AdvanceCommit 1 3;
+    Join 4 1; ClientRequest 1 (CAdd 4);
+    SendAppendEntries 1 2 1 3; HandleAppendEntries 2 2 1 2 1 [x3; x4; x5] 4; HandleAppendReply 1 2 2 true 5;
+    SendAppendEntries 1 4 0 4; HandleAppendEntries 4 2 1 1 0 [n2; x3; x4; x5] 4; HandleAppendReply 1 2 4 true 5;
+    AdvanceCommit 1 4;
+    Timeout 3; HandleRequestVote 0 3 3 4 2; HandleVote 3 3 0;
+    SendAppendEntries 3 0 3 1; HandleAppendEntries 0 3 3 4 2 [z5] 3; HandleAppendReply 3 3 0 true 5;
+    AdvanceCommit 3 4 ].
+
+Example runE_ok : run_ok V3 coded_noreuse runE (init V3).
+Proof. ok_tac. Qed.
+
+Example runE_reachable : reachable V3 coded_noreuse (run V3 coded_noreuse runE (init V3)).
+Proof. apply run_reachable; [constructor|apply runE_ok]. Qed.
+
+Example runE_result :
+  let s := run V3 coded_noreuse runE (init V3) in
+  base (nodes s 3) = [0; 1] /\ cfg 3 (nodes s 3) = [3; 0; 1] /\ cfg 1 (nodes s 1) = [1; 4; 3; 0; 2] /\
+  rl (nodes s 1) = Leader /\ term (nodes s 1) = 2 /\ rl (nodes s 3) = Leader /\ term (nodes s 3) = 3 /\
+  commit (nodes s 1) = 5 /\ commit (nodes s 3) = 5 /\
+  log (nodes s 1) = [e0; n2; x3; x4; x5] /\ log (nodes s 3) = [e0; n2; x3; x4; z5] /\
+  wins s = [(3, 3, [0; 3], [3; 0; 1]); (2, 1, [2; 1], [1; 0; 2]); (1, 0, [1; 0], [0; 1; 2])] /\
+  direct s = [(3, 4, [3; 0; 1]); (2, 4, [1; 4; 3; 0; 2]); (2, 3, [1; 3; 0; 2]); (2, 2, [1; 0; 2]);
+              (1, 1, [0; 1; 2]); (0, 0, V3)].
+Proof. vm_compute. repeat split; reflexivity. Qed.
+
+Theorem C10_as_coded_list_read_during_change_refuted :
+  exists s a b i, reachable V3 coded_noreuse s /\ alive s a /\ alive s b /\
+    i < commit (nodes s a) /\ i < commit (nodes s b) /\
+    nth_error (log (nodes s a)) i <> nth_error (log (nodes s b)) i.
+Proof.
+  exists (run V3 coded_noreuse runE (init V3)), 1, 3, 4. split; [exact runE_reachable|].
+  vm_compute. repeat split; auto; discriminate.
+Qed.
+
+Lemma C10m_nonvacuous_run :
+  reachable [0; 1; 2] (mkF true true true false true) (run [0; 1; 2] (mkF true true true false true) runS (init [0; 1; 2])) /\
+  In (1, 3, [0; 3; 1]) (direct (run [0; 1; 2] (mkF true true true false true) runS (init [0; 1; 2]))) /\
+  In (2, 3, [1; 3], [3; 0; 1]) (wins (run [0; 1; 2] (mkF true true true false true) runS (init [0; 1; 2]))) /\
+  rl (nodes (run [0; 1; 2] (mkF true true true false true) runS (init [0; 1; 2])) 3) = Leader /\
+  commit (nodes (run [0; 1; 2] (mkF true true true false true) runS (init [0; 1; 2])) 3) = 5 /\
+  gcfg [0; 1; 2] (log (nodes (run [0; 1; 2] (mkF true true true false true) runS (init [0; 1; 2])) 3)) = [3; 0; 1].
+Proof. split; [exact runS_reachable|]. vm_compute. repeat split; auto. Qed.
